@@ -316,7 +316,7 @@ class Engine:
         if fam.get("attribute_all"):
             # scenarios built for this property only: any failed guard on them is this property's failure
             for v in self.viol[before:]:
-                if v["property"] != self.pid:
+                if v["property"] != self.pid and not v["property"].startswith("X-"):
                     v["guard"] = "%s(%s)" % (v["guard"], v["property"])
                     v["property"] = self.pid
 
@@ -408,6 +408,14 @@ class Engine:
             print("  guard=%s scenario=%s %s" % (v["guard"], v["id"], v.get("detail", "")))
         if len(unlisted) > shown:
             print("  (%d further violating scenario/guard pairs not listed)" % (len(unlisted) - shown))
+        ext = {p: n for p, n in others.items() if p.startswith("X-")}
+        others = {p: n for p, n in others.items() if not p.startswith("X-")}
+        self.ext_notes = {}
+        if ext:
+            # guards of the specification that go beyond the listed properties: visible, never a property's violation
+            by = collections.Counter((v["property"], v["guard"]) for v in self.viol if v["property"].startswith("X-"))
+            self.ext_notes = {"%s/%s" % k: n for k, n in by.items()}
+            print("NOTE: extended-behaviour guards (beyond the listed properties) failed: %s" % self.ext_notes)
         if others:
             print("NOTE: guards of other properties failed on these scenarios too (reported by their own checks): %s" % dict(others))
         self.write_evidence(plan, len(unlisted), known_hits)
@@ -435,6 +443,7 @@ class Engine:
                 "rule": plan.get("rule", ""),
                 "exhaustive": False,
                 "known_findings_reobserved": {k: n for k, (_, n) in known_hits.items()},
+                "extended_guards_failed": getattr(self, "ext_notes", {}),
                 "checker_cmd": "tlc (TLA+ tools 1.8.0): model checking of spec/*.cfg and trace validation with spec/Trace_*.tla",
             },
             "assumptions": plan.get("assumptions", []),
